@@ -21,6 +21,7 @@ import TickitModel.Core.Master
 import TickitModel.Core.FailStop
 import TickitModel.Core.Contract
 import TickitModel.Core.Regex
+import TickitModel.Core.NestedInt
 
 open Lean Tickit
 
@@ -272,6 +273,24 @@ def opConfig (j : Json) : Json :=
               ("select", match selectComponents avail req with | some l => outStrs l | none => Json.str "ValueError"),
               ("inv_conns", outInvConns iw), ("inv_keys", outStrs (akeys iw))]
 
+/-- nested interrupt bookkeeping: actions -> queue / roots / told-upward after each action -/
+def opNested (j : Json) : Json :=
+  let acts := jarr (jfield j "acts")
+  let rec go (acts : List Json) (s : NSt) (acc : List Json) : List Json :=
+    match acts with
+    | [] => acc.reverse
+    | a :: rest =>
+      let act : NAct := match jstr (jfield a "a") with
+        | "interrupt" => .interrupt (jstr (jfield a "c"))
+        | "start" => .startTick ((jarr (jfield a "due")).map jstr)
+        | "update" => .beginUpdate (jstr (jfield a "c"))
+        | _ => .endTick
+      match s.step act with
+      | none => go rest s (Json.mkObj [("enabled", false)] :: acc)
+      | some s' => go rest s' (Json.mkObj [("enabled", true), ("queued", outStrs s'.queued),
+          ("roots", match s'.ticking with | some r => outStrs r | none => Json.null), ("up", s'.upOwed), ("owed", outStrs s'.owed)] :: acc)
+  Json.arr (go acts {} []).toArray
+
 /-- master bookkeeping: actions -> wakeups after each action (and tick roots for startTick) -/
 def opMaster (j : Json) : Json :=
   let acts := jarr (jfield j "acts")
@@ -371,6 +390,7 @@ def handleLine (line : String) : String :=
       | "zmq" => opZmq j
       | "config" => opConfig j
       | "regex" => opRegex j
+      | "nested" => opNested j
       | "master" => opMaster j
       | "failstop" => opFailStop j
       | "contract" => opContract j
